@@ -289,6 +289,14 @@ func transfer(state *IntraAnalysisState, loc ssa.Instruction, in ssa.Value, out 
 func transferPre(state *IntraAnalysisState, loc ssa.Instruction, in ssa.Value, out ssa.Value, path string,
 	index MarkIndex, pre bool) {
 	if glob, ok := in.(*ssa.Global); ok {
+		// like the result of a call, the value read from a global is tracked by one labelled mark for each access
+		// path of its type
+		if state.flowInfo.pathSensitivityFilter[state.flowInfo.ValueID[out]] {
+			for _, globPath := range AccessPathsOfType(glob.Type()) {
+				state.markValue(loc, out, globPath,
+					state.flowInfo.GetNewLabelledMark(loc.(ssa.Node), Global, glob, index, globPath))
+			}
+		}
 		state.markValue(loc, out, "", state.flowInfo.GetNewMark(loc.(ssa.Node), Global, glob, index))
 	}
 	isFieldSensitive := state.flowInfo.pathSensitivityFilter[state.flowInfo.ValueID[out]]
@@ -329,6 +337,13 @@ func transferCopy(t *IntraAnalysisState, loc ssa.Instruction, in ssa.Value, out 
 func (state *IntraAnalysisState) markClosureNode(x *ssa.MakeClosure) {
 	state.markValue(x, x, "", state.flowInfo.GetNewMark(x, Closure, nil, NonIndexMark))
 	for _, boundVar := range x.Bindings {
+		// like the arguments of a call, a bound variable is tracked by one labelled mark for each access path of its type
+		if state.flowInfo.pathSensitivityFilter[state.flowInfo.ValueID[boundVar]] {
+			for _, path := range AccessPathsOfType(boundVar.Type()) {
+				state.markValue(x, boundVar, path,
+					state.flowInfo.GetNewLabelledMark(x, BoundVar, boundVar, NonIndexMark, path))
+			}
+		}
 		mark := state.flowInfo.GetNewMark(x, BoundVar, boundVar, NonIndexMark)
 		state.markValue(x, boundVar, "", mark)
 	}
